@@ -208,11 +208,48 @@ def _collected_generator(fn, funcs):
     return doc + pre + [init] + gbody + [ret]
 
 
+def _collected_comprehension(fn):
+    """`def f(items, ..): ...; return [E for x in items if C]` (one generator, over a parameter): the equivalent loop that appends
+    to `_collected`.  The comprehension variable becomes a local of f, which nothing can observe after the return."""
+    if not fn.body or not isinstance(fn.body[-1], ast.Return):
+        return None
+    v = fn.body[-1].value
+    if not isinstance(v, ast.ListComp) or len(v.generators) != 1:
+        return None
+    g = v.generators[0]
+    a = fn.args
+    params = {x.arg for x in a.posonlyargs + a.args + a.kwonlyargs}
+    if g.is_async or not (isinstance(g.iter, ast.Name) and g.iter.id in params):
+        return None
+    bound = {n.id for n in ast.walk(g.target) if isinstance(n, ast.Name)}
+    used_before = {n.id for st in fn.body[:-1] for n in ast.walk(st) if isinstance(n, ast.Name)}
+    if bound & (params | used_before) or any(isinstance(n, ast.Name) and n.id == ACC for n in ast.walk(fn)):
+        return None
+    if any(isinstance(n, (ast.ListComp, ast.SetComp, ast.DictComp, ast.GeneratorExp, ast.Lambda, ast.NamedExpr)) for n in ast.walk(v.elt)):
+        return None                       # nested scopes would see the loop variable differently
+    ret = fn.body[-1]
+    app = ast.Expr(value=ast.Call(func=ast.Attribute(value=ast.Name(id=ACC, ctx=ast.Load()), attr='append', ctx=ast.Load()), args=[v.elt], keywords=[]))
+    body = [app]
+    for c in reversed(g.ifs):
+        body = [ast.If(test=c, body=body, orelse=[])]
+    loop = ast.For(target=g.target, iter=g.iter, body=body, orelse=[], type_comment=None)
+    init = ast.Assign(targets=[ast.Name(id=ACC, ctx=ast.Store())], value=ast.List(elts=[], ctx=ast.Load()), type_comment=None)
+    new_ret = ast.Return(value=ast.Name(id=ACC, ctx=ast.Load()))
+    for n in (init, loop, new_ret):
+        ast.copy_location(n, ret)
+        for sub in ast.walk(n):
+            if not hasattr(sub, 'lineno') and isinstance(sub, (ast.stmt, ast.expr)):
+                ast.copy_location(sub, ret)
+    return fn.body[:-1] + [init, loop, new_ret]
+
+
 def normalise_tree(tree):
     tree = _Normalise().visit(tree)
     funcs = {n.name: n for n in tree.body if isinstance(n, ast.FunctionDef)}
     for fn in list(funcs.values()):
         new = _collected_generator(fn, funcs)
+        if new is None:
+            new = _collected_comprehension(fn)
         if new is not None:
             fn.body = new
     ast.fix_missing_locations(tree)
